@@ -42,6 +42,8 @@ type callRes struct {
 	NA    bool // builder-style call without error result
 	Err   error
 	Panic *mon.Panic
+	// a panic while the graph that is to be added as a node was being built: which call of which front end
+	Where string
 }
 
 func (c callRes) class() byte {
@@ -264,6 +266,11 @@ func mkLambda(typ, tag string) *compose.Lambda {
 			traceAdd(ctx, tag)
 			return in.X + "|" + in.Y + tag, nil
 		})
+	case "sS":
+		return compose.InvokableLambda(func(ctx context.Context, in string) (In, error) {
+			traceAdd(ctx, tag)
+			return In{X: in + tag, Y: in + "y"}, nil
+		})
 	}
 	return compose.InvokableLambda(func(ctx context.Context, in string) (string, error) { traceAdd(ctx, tag); return in + tag, nil })
 }
@@ -346,6 +353,12 @@ func nodeOpts(op Op, pass bool) []compose.GraphAddNodeOpt {
 	if h.nodeKey != "" {
 		opts = append(opts, compose.WithNodeKey(h.nodeKey))
 	}
+	if h.inKey {
+		opts = append(opts, compose.WithInputKey("k"))
+	}
+	if h.outKey {
+		opts = append(opts, compose.WithOutputKey("k"))
+	}
 	if h.needState {
 		vt := tNone
 		if !pass {
@@ -380,23 +393,56 @@ func mkBranch(cond string, ends []string) *compose.GraphBranch {
 }
 
 func compileOpts(opt string) []compose.GraphCompileOption {
-	switch opt {
-	case "all":
-		return []compose.GraphCompileOption{compose.WithNodeTriggerMode(compose.AllPredecessor)}
-	case "any":
-		return []compose.GraphCompileOption{compose.WithNodeTriggerMode(compose.AnyPredecessor)}
-	case "max":
-		return []compose.GraphCompileOption{compose.WithMaxRunSteps(7)}
-	case "all+max":
-		return []compose.GraphCompileOption{compose.WithNodeTriggerMode(compose.AllPredecessor), compose.WithMaxRunSteps(7)}
-	case "any+max":
-		return []compose.GraphCompileOption{compose.WithNodeTriggerMode(compose.AnyPredecessor), compose.WithMaxRunSteps(7)}
-	case "name":
-		return []compose.GraphCompileOption{compose.WithGraphName("g")}
-	case "store":
-		return []compose.GraphCompileOption{compose.WithCheckPointStore(&memStore{m: map[string][]byte{}})}
+	var out []compose.GraphCompileOption
+	for _, o := range strings.Split(opt, "+") {
+		switch o {
+		case "all":
+			out = append(out, compose.WithNodeTriggerMode(compose.AllPredecessor))
+		case "any":
+			out = append(out, compose.WithNodeTriggerMode(compose.AnyPredecessor))
+		case "max":
+			out = append(out, compose.WithMaxRunSteps(7))
+		case "name":
+			out = append(out, compose.WithGraphName("g"))
+		case "store":
+			out = append(out, compose.WithCheckPointStore(&memStore{m: map[string][]byte{}}))
+		}
 	}
-	return nil
+	return out
+}
+
+// buildSub builds the graph that is to be added as a node: every call of its own sequence on a fresh
+// builder. A panic of one of these calls is handed to the caller with the place where it happened.
+func buildSub(sub *Sub) (g compose.AnyGraph, pan *mon.Panic, where string) {
+	inst := newInstance(sub.FE, false)
+	ref := newReference(sub.FE, false)
+	for i, op := range sub.Ops {
+		_, rule := ref.predict(op)
+		if res := inst.apply(op); res.Panic != nil {
+			w := res.Where
+			if w == "" {
+				w = "nested-" + sub.FE + "-" + callName(op) + "/" + panicRule(sub.Ops, i, rule)
+			}
+			return nil, res.Panic, w
+		}
+	}
+	switch x := inst.(type) {
+	case *gInst:
+		return x.g, nil, ""
+	case *cInst:
+		return x.c, nil, ""
+	case *wInst:
+		return x.wf, nil, ""
+	}
+	panic("harness: buildSub: unknown instance")
+}
+
+func subNodeOpts(op Op) []compose.GraphAddNodeOpt {
+	opts := nodeOpts(op, false)
+	if op.Sub.HasOpt {
+		opts = append(opts, compose.WithGraphCompileOptions(compileOpts(op.Sub.Opt)...))
+	}
+	return opts
 }
 
 // ---- Graph ------------------------------------------------------------------
@@ -409,12 +455,19 @@ type gInst struct {
 func (x *gInst) last() runFn { return x.r }
 
 func (x *gInst) apply(op Op) (res callRes) {
-	res.Panic = mon.Safe(func() {
+	pan := mon.Safe(func() {
 		switch op.K {
 		case "L":
 			res.Err = x.g.AddLambdaNode(op.Key, mkLambda(op.Typ, op.Key), nodeOpts(op, false)...)
 		case "P":
 			res.Err = x.g.AddPassthroughNode(op.Key, nodeOpts(op, true)...)
+		case "GN":
+			sub, bp, where := buildSub(op.Sub)
+			if bp != nil {
+				res.Panic, res.Where = bp, where
+				return
+			}
+			res.Err = x.g.AddGraphNode(op.Key, sub, subNodeOpts(op)...)
 		case "E":
 			res.Err = x.g.AddEdge(op.From, op.To)
 		case "B":
@@ -429,6 +482,9 @@ func (x *gInst) apply(op Op) (res callRes) {
 			panic("harness: gInst cannot apply " + op.K)
 		}
 	})
+	if pan != nil {
+		res.Panic = pan
+	}
 	return res
 }
 
@@ -442,7 +498,7 @@ type cInst struct {
 func (x *cInst) last() runFn { return x.r }
 
 func (x *cInst) apply(op Op) (res callRes) {
-	res.Panic = mon.Safe(func() {
+	pan := mon.Safe(func() {
 		switch op.K {
 		case "CL":
 			res.NA = true
@@ -450,6 +506,14 @@ func (x *cInst) apply(op Op) (res callRes) {
 		case "CP":
 			res.NA = true
 			x.c.AppendPassthrough(nodeOpts(op, true)...)
+		case "CG":
+			res.NA = true
+			sub, bp, where := buildSub(op.Sub)
+			if bp != nil {
+				res.Panic, res.Where = bp, where
+				return
+			}
+			x.c.AppendGraph(sub, subNodeOpts(op)...)
 		case "CPar":
 			res.NA = true
 			if op.N < 0 {
@@ -495,6 +559,9 @@ func (x *cInst) apply(op Op) (res callRes) {
 			panic("harness: cInst cannot apply " + op.K)
 		}
 	})
+	if pan != nil {
+		res.Panic = pan
+	}
 	return res
 }
 
@@ -509,7 +576,7 @@ type wInst struct {
 func (x *wInst) last() runFn { return x.r }
 
 func (x *wInst) apply(op Op) (res callRes) {
-	res.Panic = mon.Safe(func() {
+	pan := mon.Safe(func() {
 		switch op.K {
 		case "WN":
 			res.NA = true
@@ -526,14 +593,27 @@ func (x *wInst) apply(op Op) (res callRes) {
 			case op.Typ == "P":
 				h = x.wf.AddPassthroughNode(op.Key, nodeOpts(op, true)...)
 				x.handles[op.Key] = h
+			case op.Typ == "G":
+				sub, bp, where := buildSub(op.Sub)
+				if bp != nil {
+					res.Panic, res.Where = bp, where
+					return
+				}
+				h = x.wf.AddGraphNode(op.Key, sub, subNodeOpts(op)...)
+				x.handles[op.Key] = h
 			default:
 				h = x.wf.AddLambdaNode(op.Key, mkLambda(op.Typ, op.Key), nodeOpts(op, false)...)
 				x.handles[op.Key] = h
 			}
 			for _, in := range op.In {
 				var maps []*compose.FieldMapping
-				if in.Field != "" {
+				switch {
+				case in.Field != "" && in.FromF != "":
+					maps = append(maps, compose.MapFields(in.FromF, in.Field))
+				case in.Field != "":
 					maps = append(maps, compose.ToField(in.Field))
+				case in.FromF != "":
+					maps = append(maps, compose.FromField(in.FromF))
 				}
 				switch in.Mode {
 				case "nd":
@@ -557,5 +637,8 @@ func (x *wInst) apply(op Op) (res callRes) {
 			panic("harness: wInst cannot apply " + op.K)
 		}
 	})
+	if pan != nil {
+		res.Panic = pan
+	}
 	return res
 }
